@@ -336,7 +336,7 @@ pub fn check_doc(text: &str, style: ScalarStyle, tag: TagK) -> CheckResult {
     Ok(())
 }
 
-fn case_json(text: &str, style: ScalarStyle, tag: TagK, path: &str) -> Value {
+pub fn case_json(text: &str, style: ScalarStyle, tag: TagK, path: &str) -> Value {
     json!({"text": text, "style": style_name(style), "tag": tag.name(), "path": path})
 }
 
